@@ -521,6 +521,21 @@ func c08Job(t *testing.T, raw json.RawMessage) (any, error) {
 						// what the CHF decodes from the tariff (same arithmetic as getUnitCost)
 						chf := uint32(uc.ValueDigits) * uint32(math.Pow10(int(uc.Exponent)))
 						applied := uint64(chf)
+						if cls == "decimal" {
+							// the stored value is digits / 10^decimals: the tariff must say so (Unit-Value = digits x 10^exponent)
+							dot := strings.Index(cost, ".")
+							digits, _ := strconv.ParseInt(strings.Replace(cost, ".", "", 1), 10, 64)
+							decimals := len(cost) - dot - 1
+							switch {
+							case int64(uc.ValueDigits) == digits && int(uc.Exponent) == -decimals:
+							case decimals > 0 && int64(uc.ValueDigits) == digits && int(uc.Exponent) == decimals:
+								// positively recognised known defect: the exponent is written with the wrong sign, the value is
+								// taken 10^(2 x decimals) times too large by server and CHF alike
+								find("decimal-unit-cost-exponent-sign", what+fmt.Sprintf(": tariff digits %d exponent %+d, i.e. %d per unit for a stored unit cost of %s", uc.ValueDigits, uc.Exponent, chf, cost))
+							default:
+								find("tariff-not-the-stored-decimal", what+fmt.Sprintf(": tariff digits %d exponent %+d for a stored unit cost of %s", uc.ValueDigits, uc.Exponent, cost))
+							}
+						}
 						if cls == "integer" {
 							if uint64(chf) != u {
 								find("tariff-decodes-to-other-unit-cost", what+fmt.Sprintf(": tariff digits %d exponent %d decode to %d at the CHF", uc.ValueDigits, uc.Exponent, chf))
@@ -567,7 +582,7 @@ func init() {
 	checks["C08"] = func(t *testing.T) int {
 		rep := NewReport("C08")
 		pool := NewPool(0)
-		costs := []string{"1", "2", "3", "10", "100", "255", "256", "65535", "65536", "4294967295", "0", "00", "007", "0.5", "1.5", "2.50", "1.", ".5", "", "abc", "-1", "1e3", " 2", "2 ", "4294967296", "99999999999999999999", "1,5", "0x10", "١"}
+		costs := []string{"1", "2", "3", "10", "100", "255", "256", "65535", "65536", "4294967295", "0", "00", "007", "0.5", "1.5", "2.50", "1.", ".5", "0.25", "0.08", "0.10", "0.125", "12.75", "010", "08", "0009", "429496729.6", "8589934592", "", "abc", "-1", "1e3", " 2", "2 ", "4294967296", "99999999999999999999", "1,5", "0x10", "١"}
 		if rep.Tier == "thorough" {
 			for i := 4; i <= 40; i++ {
 				costs = append(costs, strconv.Itoa(i*i*i+1))
